@@ -1,32 +1,8 @@
 #!/bin/sh
 # Must-fail corpus: every patch under selftest/mutants (and seeded/*/patch.diff) is applied to a scratch copy of /repo;
 # the check of the property named in the file name (Cxx-...) must then report a VIOLATION.
-# usage: selftest/run.sh [pattern]
+# usage: selftest/run.sh [pattern]        (JOBS patches at a time, default 3; exit 0 only if every patch is CAUGHT)
 V=$(cd "$(dirname "$0")/.." && pwd)
 cd "$V" || exit 2
 pat="${1:-}"
-fail=0
-for p in selftest/mutants/*${pat}*.patch seeded/*${pat}*/patch.diff; do
-  [ -f "$p" ] || continue
-  case "$p" in
-    seeded/*) prop=$(python3 -c "import json,sys;print(json.load(open('$(dirname $p)/meta.json'))['property'])") ;;
-    *) prop=$(basename "$p" | cut -d- -f1) ;;
-  esac
-  d=$(mktemp -d "${TMPDIR:-/tmp}/gabi-mut-XXXXXX")
-  cp -r /repo/. "$d"/
-  if ! git -C "$d" apply "$V/$p" 2>/dev/null; then
-    echo "SKIP $p (does not apply to the current tree)"; fail=1
-    rm -rf "$d"; continue
-  fi
-  o=$(mktemp -d "${TMPDIR:-/tmp}/gabi-mut-out-XXXXXX")
-  out=$(VERIF_REPO="$d" VERIF_OUT="$o" ./check "$prop" 2>&1); rc=$?
-  rm -rf "$o"
-  n=$(echo "$out" | grep -c '^VIOLATION')
-  if [ "$rc" -eq 1 ] && [ "$n" -gt 0 ]; then
-    echo "CAUGHT $p by $prop: $(echo "$out" | grep '^VIOLATION' | head -2 | sed 's/.*replays\/[^/]*\///' | tr '\n' ' ')"
-  else
-    echo "MISSED $p by $prop (exit $rc)"; fail=1
-  fi
-  rm -rf "$d"
-done
-exit $fail
+ls selftest/mutants/*${pat}*.patch seeded/*${pat}*/patch.diff 2>/dev/null | xargs -P "${JOBS:-3}" -n 1 sh selftest/one.sh
